@@ -357,7 +357,7 @@ type vcWalChecker struct {
 
 func (c *vcWalChecker) mismatch(sig, detail string, rp map[string]interface{}) {
 	c.seen[sig]++
-	if c.seen[sig] == 1 && len(c.seen) <= 10 {
+	if c.seen[sig] == 1 && len(c.seen) <= 6 {
 		vtrace.Mismatch(sig, detail, rp)
 	}
 }
@@ -1142,7 +1142,7 @@ func TestVerifBlockCodec(t *testing.T) {
 	classes := map[string]bool{}
 	mismatch := func(sig, detail string, cs *vcBlockCase, rep int) {
 		seen[sig]++
-		if seen[sig] == 1 && len(seen) <= 12 {
+		if seen[sig] == 1 && len(seen) <= 6 {
 			vtrace.Mismatch(sig, detail, map[string]interface{}{"test": "BLK", "case": cs, "seed": in.Seed, "rep": rep})
 		}
 	}
